@@ -385,6 +385,10 @@ func (h *hashObj) write(fr *frame, b value) {
 			h.data = nil
 		}
 		h.parts = append(h.parts, b)
+	case *absCat:
+		for _, part := range b.parts {
+			h.write(fr, part)
+		}
 	case string:
 		for i := 0; i < len(b); i++ {
 			h.write(fr, []value{b[i]})
@@ -520,7 +524,8 @@ func hashSum(fr *frame, a []value) value {
 	h := (*a[0].(*value)).(*hashObj)
 	d := h.sum(fr)
 	pre, _ := a[1].([]value)
-	return append(append([]value{}, pre...), d...)
+	// Go append semantics: h.Sum(buf[:0]) writes into buf's backing array
+	return append(pre, d...)
 }
 
 var _ = big.NewInt
